@@ -241,16 +241,33 @@ def main(ctx):
                                     'dir': d, 'actions': actions,
                                     'outcome': r['outcome'],
                                     'model_state': m_state})
+    # F6 regression: packets removed, the rest arriving in several
+    # data_received() calls before the deferred clean-up runs
+    for enc in ('aes128-gcm@openssh.com', 'aes256-gcm@openssh.com',
+                'aes128-ctr', 'chacha20-poly1305@openssh.com', 'aes128-cbc'):
+        for drop in (1, 2):
+            for calls in (2, 3, 5):
+                got, lost = T.burst_after_drop(enc, drop, calls)
+                total += 1
+                ctx.count(('burst', enc, drop, calls))
+                if got:
+                    ctx.violation({'module': 'Tamper', 'clause':
+                                   'NoDeliveryAfterAlteration', 'enc': enc},
+                                  f'{enc}: {drop} packet(s) removed from the '
+                                  f'stream, yet {got!r} reached the '
+                                  f'application (rest delivered in {calls} '
+                                  f'data_received calls in one iteration)',
+                                  replay={'kind': 'burst', 'enc': enc,
+                                          'drop': drop, 'calls': calls})
     ctx.traces_validated(total)
     ctx.assumptions += [
         'the adversary works at packet boundaries (each transport.write() of '
         'asyncssh is one SSH packet) plus bit flips / truncation inside a '
         'packet; byte-granular splicing inside packets is covered by the '
         'flip and truncate actions',
-        'deliveries follow selector semantics (one read event per loop '
-        'iteration); F6 (input parsed again between a fatal error and the '
-        'deferred clean-up, reachable through tunnel=) is not reproduced by '
-        'this harness and is recorded as an observation in DESIGN.md',
+        'MITM sessions use selector delivery semantics (one read event per '
+        'loop iteration); the F6 regression delivers several data_received '
+        'calls within one iteration, as an SSH tunnel does',
     ]
 
 
